@@ -13,6 +13,8 @@ CONSTANTS
   FailBudget = 1
   MaxNow = 14
   EnableClose = TRUE
+  Ctrls = {0, 1}
+  Urgent = FALSE
 INVARIANTS Bounded NoDupDelivery NoStuck
 VIEW view
 CHECK_DEADLOCK FALSE
